@@ -108,6 +108,13 @@ CHECKS = {
                      'ints against an RFC 7233 reference; Range grammar served on files of size 0/1/10',
                 note='trusted: z3/pathex, CrossHair, the RFC 7233 reference in harness/c16.py, http.client; paths limited to the segment alphabet '
                      '(normpath is C code)'),
+    'C17': dict(engine='pathex+crosshair', technique=TECH_XH, ref='DESIGN.md 4/C17',
+                text='bounded symbolic execution of the real WebSocket codec against an independent RFC 6455 encoder/decoder: payload '
+                     'lengths at every encoding boundary, masked/unmasked, text/binary, server/client mode, cut positions as z3 Ints '
+                     'over the header / extended length / masking key / frame end, fragmentation programs with an interleaved ping, '
+                     'the close handshake, and the encoder for all three length encodings; CrossHair additionally explores payload '
+                     'contents and masking key on the decoder kernel (bug-hunting: its conditions do not close and are listed as not discharged)',
+                note='trusted: z3/pathex, CrossHair, the RFC 6455 reference in harness/c17.py; payloads up to 65537 bytes, valid UTF-8 text'),
 }
 
 NOT_YET = {
